@@ -1478,6 +1478,13 @@ def check_c18(model, rep, tier):
     r_json_native(model, rep)
     # R-JSON-NATIVE reads the types the validators *ask for*; it is the helpers that decide what they accept (an _assert_type
     # that lets bytes pass for str makes json.dump fail after the destination was opened)
+    # the assumption "ConfigParser.write raises no ValueError/TypeError for data that passed serialisation" holds because
+    # ConfigParser.set() checks every value when the section writer stores it: the parser class must leave set() and write() alone
+    pc = model.cls("common.SortedConfigParser")
+    moved = [n for n in ("set", "write", "_write_section", "_validate_value_types") if n in pc.methods]
+    rep.ob("R-DUMP-ORDER", "SortedConfigParser:value-checks-at-set-time", not moved, site=pc.module.site(pc.node),
+           msg="" if not moved else "SortedConfigParser overrides %s: the value checks section writers rely on at parser.set() time may "
+                                    "now happen while the destination is open" % moved)
     from ..core import Report
     sub = Report("C18", "quick")
     r_assert_helpers(model, sub)
